@@ -32,7 +32,8 @@ func ZZ_C13_W12() {
 	y = append(y, x...)
 	if d, _ := w.sc.delegateeLedger.GetFinality(ledger.ToLedgerKey(zzAddr(0))); d != nil {
 		p := zzPower("extra")
-		_ = d.AddStake(NewStakeWithPower(zzAddr(2), zzAddr(0), p, 2, zzHash(5)))
+		// (as the staking transaction of block 2 records it: start height = height + 1)
+		_ = d.AddStake(NewStakeWithPower(zzAddr(2), zzAddr(0), p, 3, zzHash(5)))
 		_ = w.sc.delegateeLedger.SetFinality(d)
 		y = append(y, &zzStakeRec{hash: zzHash(5), from: 2, to: 0, power: p, live: true})
 	}
